@@ -79,6 +79,14 @@ def d_netlist(rng: random.Random, f: F, bad: bool = False, pads: bool = False):
 
 def d_die(rng: random.Random, f: F, bad: bool = False):
     u = unit(rng, f)
+    if not bad and rng.random() < 0.5:
+        # a die with ONE region in a corner, of any proportions: all of them have the same occupancy pattern on their own
+        # grid lines and differ in every dimension (seeded C20-8: nothing computed for one die may answer for another)
+        W, H = rng.randint(5, 12), rng.randint(5, 12)
+        w, h = rng.randint(1, W - 1), rng.randint(1, H - 1)
+        cx, cy = rng.choice([(F(w, 2), F(h, 2)), (W - F(w, 2), H - F(h, 2))])
+        return {"width": fl(W * u), "height": fl(H * u),
+                "regions": [[fl(cx * u), fl(cy * u), fl(w * u), fl(h * u), rng.choice(["#", "#", "DSP"])]]}
     W, H = rng.randint(5, 9), rng.randint(5, 9)
     regs = []
     x = 0
@@ -257,9 +265,10 @@ def op_die(doc):
         d = Die(doc)
     except AssertionError as e:
         return ["reject", str(e)[:40]]
+    ground = sorted(rrepr(r) for r in d.ground_regions)
     d.split_refinable_regions(1.5, 6)
     ref, fx = d.floorplanning_rectangles()
-    return ["accept", sorted(rrepr(r) for r in ref), sorted(rrepr(r) for r in d.blockages)]
+    return ["accept", ground, sorted(rrepr(r) for r in ref), sorted(rrepr(r) for r in d.blockages)]
 
 
 def op_alloc(doc):
@@ -358,6 +367,23 @@ OPS = {"undef": op_undef, "pads": op_netlist, "sliver": op_netlist, "netlist": o
        "legal": op_legal, "strop": op_strop}
 
 
+TEXT_KINDS = {"netlist", "die", "alloc", "stog", "pads", "sliver"}
+
+
+def as_document(kind, design, seed: int, in_history: bool):
+    """The design as the loader receives it: the tree itself, or (two cases in three) a YAML text of it in which whole
+    numbers are written with a leading zero (010: ten in YAML 1.2, which is what FRAME reads; eight in YAML 1.1).  In a
+    history one text in four starts with a '%YAML 1.1' directive: a legal document of its own, whose reading must not
+    change how LATER documents are read (seeded C20-7: one parser object shared by all loads)."""
+    if kind not in TEXT_KINDS or seed % 3 == 0:
+        return design
+    text = json.dumps(design)
+    text = re.sub(r"(?<![\w.+-])([1-9]\d*)\.0(?![\de])", r"0\1", text)
+    if in_history and seed % 4 == 1:
+        text = "%YAML 1.1\n---\n" + text
+    return text + "\n"
+
+
 def safe(kind, design):
     try:
         return OPS[kind](design)
@@ -386,9 +412,9 @@ def run_behaviour(b):
     events = []
     for (kind, sidx, seed) in b["hist"]:
         before = _eps_state(Rectangle)
-        safe(kind, make_design(kind, seed, sidx))
+        safe(kind, as_document(kind, make_design(kind, seed, sidx), seed, True))
         events.append([kind, sidx, int(_eps_state(Rectangle) != before), len(getattr(pseudobool, 'memory', ()))])
-    res = safe(b["probe"], make_design(b["probe"], b["pseed"], 2, probe=True))
+    res = safe(b["probe"], as_document(b["probe"], make_design(b["probe"], b["pseed"], 2, probe=True), b["pseed"], False))
     return {"events": events, "digest": as_ints(res), "res": res if b.get("keep") else None}
 
 
@@ -427,6 +453,10 @@ def run(ctx: Ctx) -> int:
                 prev = loaders if k in loaders else [k]
                 hist = [[rng.choice(prev), rng.choice([0, 0, 1, 2, 3, 4, 4]), rng.randrange(10 ** 6)] for _ in range(rng.randint(1, 3))]
                 behaviours.append({"hist": hist, "probe": k, "pseed": rng.randrange(300)})
+        # die after dies: the decomposition of one die must not answer for another die with the same occupancy pattern
+        for _ in range(60 if tier == "quick" else 800):
+            hist = [["die", rng.choice([0, 1, 2, 2, 3, 4]), rng.randrange(10 ** 6)] for _ in range(rng.randint(1, 3))]
+            behaviours.append({"hist": hist, "probe": "die", "pseed": rng.randrange(300)})
         # longer random histories than TLC enumerates
         for _ in range(300 if tier == "quick" else 4000):
             hist = [[rng.choice(HIST_KINDS), rng.randrange(5), rng.randrange(10 ** 6)] for _ in range(rng.randint(3, 6))]
